@@ -241,7 +241,8 @@ theorem hevcParseRecord_layout (mid vps sps pps : Bytes) (hm : mid.length = 22)
   rw [t32] at a1; rw [t33] at a2; rw [t34] at a3
   have c1 : ¬ ((hevcLayout mid vps sps pps).length < 38 + vps.length) := by omega
   have c2 : ¬ ((hevcLayout mid vps sps pps).length < 43 + vps.length + sps.length) := by omega
-  simp [hevcParseRecord, idx?, g27, a1, a2, a3, c1, c2]
+  have c0 : 33 ≤ (hevcLayout mid vps sps pps).length := by omega
+  simp [hevcParseRecord, idx?, g27, a1, a2, a3, c0, c1, c2]
 
 theorem hevcParse_layout (mid vps sps pps : Bytes) (hm : mid.length = 22)
     (hv : vps.length < 65536) (hs : sps.length < 65536) (hp : pps.length < 65536) :
